@@ -33,6 +33,20 @@ class ToolingError(Exception):
     pass
 
 
+# Where a case's files live is no part of any contract: the server-level harnesses put every case into a directory whose
+# name is plain, holds a blank, a non-ASCII word, brackets or braces (what ordinary folders are called).  The style is a
+# function of the case's content (not of its position or id), so that a replay gets the same directory.
+DIRSTYLE_COMMANDS = ("script", "workspace", "srvinclude", "pubdiag")
+
+
+def with_dirstyle(command, c):
+    if command not in DIRSTYLE_COMMANDS or not isinstance(c, dict) or "dirstyle" in c:
+        return c
+    import zlib
+    body = json.dumps({k: v for k, v in c.items() if k != "id"}, sort_keys=True, ensure_ascii=False)
+    return dict(c, dirstyle=zlib.crc32(body.encode("utf-8")) % 5)
+
+
 class ServerCrash(Exception):
     pass
 
@@ -359,7 +373,7 @@ class Run:
         outp = os.path.join(self.scratch, "results-%s-%d.ndjson" % (command, n))
         with open(inp, "w") as f:
             for c in cases:
-                f.write(json.dumps(c, ensure_ascii=False) + "\n")
+                f.write(json.dumps(with_dirstyle(command, c), ensure_ascii=False) + "\n")
         work = self.mkdir("work-%s-%d" % (command, n))
         env = go_env()
         env["HOME"] = self.mkdir("home")
